@@ -103,7 +103,7 @@ def check(ctx):
     kdk = p.enum('engine::PieceKind')
     csk = p.enum('engine::Castling')
 
-    def decide2(f, env):
+    def decide2(f, env, _depth=0):
         val = {'castling(move)': csk['NO_CASTLING'] if env['c'] else csk['KING_CASTLING'],
                'promotion(move)': kdk['NO_PIECE_KIND'] if env['p'] else kdk['QUEEN'],
                ('eq',) + tuple(sorted(['enpassant_square()', 'to(move)'])): env['e1'],
@@ -112,6 +112,11 @@ def check(ctx):
                'piece_at(to(move))': 0 if env['o'] else 4,
                'make_piece_kind(piece_at(to(move)))': kdk['NO_PIECE_KIND'] if env['o'] else kdk['ROOK'],
                'get_piece_kind(piece_at(to(move)))': kdk['NO_PIECE_KIND'] if env['o'] else kdk['ROOK']}
+        # one predicate may be written in terms of the other: its value in this row is that function's own decision
+        if _depth == 0:
+            for g in (cap, qui):
+                if g is not f and any(c2 == g.id for _n, c2, _nm in f.calls()):
+                    val['%s(move)' % short(g.name)] = 1 if decide2(g, env, 1) else 0
         nm = Norm(f)
         nm.val = val
         try:
